@@ -6,7 +6,12 @@ package lat
 // sorted merge above some length, ...) is a second code path that must agree with the scan. The pools had no Enum with more
 // than 3 values. Additions only, deterministic, no map iteration.
 
-import "fmt"
+import (
+	"fmt"
+	"strings"
+
+	"github.com/lyraproj/pcore/types"
+)
 
 // LongEnumLens: list lengths whose pairwise products lie on both sides of the powers of two a size threshold is likely to
 // use (16x16 = 256, 17x16, 257x1, 32x32 = 1024, 33x32, 300x1, 20x15 = 300, 40x40 = 1600, 300x300)
@@ -58,6 +63,12 @@ func LongEnumBare(small bool) []*Spec {
 			}
 			if n >= 15 {
 				out = append(out, Enum(ci, append(enumList(0, n-1, 0), "k999")...), Enum(ci, append([]string{"K999"}, enumList(0, n-1, 0)...)...))
+				if !small || n == 20 || n == 300 {
+					// a last value of another length (String[4, 4] <- Enum reads every value)
+					out = append(out, Enum(ci, append(enumList(0, n-1, 0), "k999999")...))
+					// as long as the prefix of n values, one value fewer: the last repeats the first (equality is one of sets)
+					out = append(out, Enum(ci, append(enumList(0, n-1, 0), "k000")...))
+				}
 			}
 		}
 	}
@@ -65,10 +76,44 @@ func LongEnumBare(small bool) []*Spec {
 		out = append(out, Enum(ci, "k007"), Enum(ci, "K007"), Enum(ci, "k007", "K007"), Enum(ci, "k299"), Enum(ci, "K299"), Enum(ci, "k999"),
 			Enum(ci, "k007", "k011"), Enum(ci, "K007", "k011"), Enum(ci, "k007", "k999"))
 	}
-	for _, s := range []string{"k007", "K007", "k299", "K299", "k999", "k039", "K039"} {
+	for _, s := range []string{"k007", "K007", "k299", "K299", "k999", "k039", "K039", "k999999"} {
 		out = append(out, StrVal(s))
 	}
+	out = append(out, Enum(false, "k999999"), Enum(true, "k999999"), StrSz(4, 4), StrSz(4, 7), StrSz(0, 4), StrSz(5, Max))
 	return dedupSpecs(out)
+}
+
+// LongEnumNeighbours: Pattern types that read every value of an Enum on their right (pool only: in the model a Pattern answers
+// through the regexp oracle table, one row per pattern and string)
+func LongEnumNeighbours() []*Spec {
+	return []*Spec{Pat("^k[0-9]{3}$"), Pat("^[kK][0-9]{3}$"), Pat("^k0", "^k1", "^k2"), Pat("^k[0-9]+$")}
+}
+
+// HasLongEnum: the recipe holds an Enum with at least 15 values
+func HasLongEnum(s *Spec) bool {
+	if s.K == "Enum" && len(s.Strs) >= 15 {
+		return true
+	}
+	for _, e := range s.Sub {
+		if HasLongEnum(e) {
+			return true
+		}
+	}
+	return false
+}
+
+// LongEnumCost: the largest number of values of an Enum in the recipe (1 when there is none)
+func LongEnumCost(s *Spec) int {
+	n := 1
+	if s.K == "Enum" && len(s.Strs) > n {
+		n = len(s.Strs)
+	}
+	for _, e := range s.Sub {
+		if k := LongEnumCost(e); k > n {
+			n = k
+		}
+	}
+	return n
 }
 
 // longEnumCore: the Enums that are carried into member positions - the long ones with either flag and spelling, and the short
@@ -97,6 +142,7 @@ func LongEnumFamilies(small bool) []*Spec {
 	// a long list split over two variants (each value of the right Enum is in one of them, none holds all)
 	out = append(out, Var(Enum(true, enumList(0, 150, 0)...), Enum(true, enumList(150, 150, 0)...)),
 		Var(Enum(false, enumList(0, 150, 0)...), Enum(true, enumList(150, 150, 0)...)))
+	out = append(out, LongEnumNeighbours()...)
 	return dedupSpecs(out)
 }
 
@@ -109,5 +155,38 @@ func LongEnumValues() []*VSpec {
 	return out
 }
 
-// IsLongEnumBare: an Enum recipe with at least 15 values, or a String of one of the family's values
-func IsLongEnumBare(s *Spec) bool { return s.K == "Enum" && len(s.Strs) >= 15 }
+
+// StrListTable interns the value lists of long Enums for a cases file: each distinct list is defined once (`LS<k>`) and
+// the printed types refer to it (coqc spends ~0.1 s on every 300-string literal it reads).
+type StrListTable struct {
+	Defs  strings.Builder
+	names map[string]string
+}
+
+func (tb *StrListTable) GTy(t *types.VerifTy) string {
+	s := GTy(t)
+	var walk func(t *types.VerifTy)
+	walk = func(t *types.VerifTy) {
+		if t.K == "Enum" && len(t.Strs) >= 15 {
+			lt := gstrs(t.Strs)
+			if tb.names == nil {
+				tb.names = map[string]string{}
+			}
+			name, ok := tb.names[lt]
+			if !ok {
+				name = fmt.Sprintf("LS%d", len(tb.names))
+				tb.names[lt] = name
+				tb.Defs.WriteString("Definition " + name + " : list str := " + lt + ".\n")
+			}
+			s = strings.Replace(s, lt, name, -1)
+		}
+		for _, e := range t.Ts {
+			walk(e)
+		}
+		for _, e := range t.Keys {
+			walk(e)
+		}
+	}
+	walk(t)
+	return s
+}
